@@ -12,6 +12,8 @@ include/llbuild/Basic/POSIXEnvironment.h).  CORE LEAN ONLY.
                     they are equal (fail closed).
   * `executeProcess` — the cancelled-before-spawn path of the queues
   * `Group`      — the two mutex-protected steps of `ProcessGroup` racing `cancelAllJobs`
+  * `Esc`        — released lanes, the escalation thread (`killAfterTimeout`) and the destructor's hand-over
+                    (`queueComplete`), steps = critical sections of `queueCompleteMutex` / `pgrp.mutex`
   * `assemble`   — environment assembly by `setIfMissing` in the extracted order
 -/
 import LLBuild.Model.Bytes
@@ -200,6 +202,91 @@ inductive Reachable (n : Nat) : State → Prop
   | step {s s' : State} (a : Act) : Reachable n s → step s a = some s' → Reachable n s'
 
 end Group
+
+/-! ### released lanes, the escalation thread and the destructor
+
+`cancelAllJobs` starts a thread running `killAfterTimeout`; the destructor joins the lanes, sets `queueComplete`
+under `queueCompleteMutex`, notifies and joins that thread; `~ProcessGroup` then waits until every registered
+process was reaped.  A process that released its lane over the control channel stays registered but no longer
+keeps a lane busy, so the lanes can be joined while it runs.  Steps are the critical sections; the order of the
+SIGINT round against launches is the subject of `Group` and not repeated here. -/
+namespace Esc
+
+inductive Thread
+  | none                      -- cancelAllJobs has not run
+  | created                   -- std::thread constructed; killAfterTimeout has not taken queueCompleteMutex yet
+  | waiting                   -- found `!queueComplete`; sits in wait_for (mutex released)
+  | finished (killed : Bool)  -- returned; `killed`: it ran signalAll(SIGKILL)
+  deriving DecidableEq, Repr
+
+structure State where
+  procs : List (Nat × Bool)   -- pgrp.processes: pid ↦ still holds its lane
+  nextPid : Nat
+  closed : Bool               -- cancelAllJobs ran (group closed, thread started)
+  thread : Thread
+  lanesJoined : Bool          -- destructor: every lane joined
+  queueComplete : Bool
+  escJoined : Bool            -- destructor: killAfterTimeoutThread->join() returned
+  killSent : List Nat
+  /-- ghost: the escalation thread entered its wait, i.e. it took the mutex before the destructor stored `queueComplete` -/
+  waited : Bool
+  deriving DecidableEq, Repr
+
+def init : State :=
+  { procs := [], nextPid := 1, closed := false, thread := .none, lanesJoined := false, queueComplete := false,
+    escJoined := false, killSent := [], waited := false }
+
+inductive Act
+  | spawn                -- a lane spawns and registers a process (it holds the lane)
+  | release (pid : Nat)  -- control message seen: the lane is released, the process stays registered
+  | reap (pid : Nat)     -- the process ended (by itself or by a signal): wait4; pgrp.remove
+  | cancel               -- cancelAllJobs: close the group, (interrupt round,) start the escalation thread
+  | escEnter             -- killAfterTimeout: lock; `if (!queueComplete)`
+  | escWake              -- wait_for returned (deadline, notify_all or spuriously); signalAll(SIGKILL)
+  | joinLanes            -- destructor: shutdown, join every lane — possible only when no process holds a lane
+  | complete             -- destructor: `queueComplete = true; notify_all()` (only when a thread exists)
+  | joinEsc              -- destructor: join returns once the thread has finished
+  deriving Repr
+
+/-- `fix` = `Generated.LaneQueue.escalatesWhenComplete`: the kill round is also run when the thread finds
+`queueComplete` already set -/
+def stepWith (fix : Bool) (s : State) : Act → Option State
+  | .spawn =>
+    if !s.closed && !s.lanesJoined then some { s with procs := (s.nextPid, true) :: s.procs, nextPid := s.nextPid + 1 } else none
+  | .release pid =>
+    if s.procs.contains (pid, true) then some { s with procs := s.procs.map (fun p => if p.1 == pid then (p.1, false) else p) } else none
+  | .reap pid => some { s with procs := s.procs.filter (fun p => p.1 != pid) }
+  | .cancel =>
+    if !s.closed && !s.lanesJoined then some { s with closed := true, thread := .created } else none
+  | .escEnter =>
+    if s.thread = .created then
+      if s.queueComplete then
+        some { s with thread := .finished fix, killSent := if fix then s.procs.map (·.1) ++ s.killSent else s.killSent }
+      else some { s with thread := .waiting, waited := true }
+    else none
+  | .escWake =>
+    if s.thread = .waiting then some { s with thread := .finished true, killSent := s.procs.map (·.1) ++ s.killSent } else none
+  | .joinLanes =>
+    if !s.lanesJoined && s.procs.all (fun p => !p.2) then some { s with lanesJoined := true } else none
+  | .complete =>
+    if s.lanesJoined && !s.queueComplete && s.thread != .none then some { s with queueComplete := true } else none
+  | .joinEsc =>
+    match s.thread with
+    | .finished _ => if s.queueComplete then some { s with escJoined := true } else none
+    | _ => none
+
+/-- the code in the tree -/
+def step : State → Act → Option State := stepWith Generated.LaneQueue.escalatesWhenComplete
+
+inductive Reachable (fix : Bool) : State → Prop
+  | init : Reachable fix init
+  | step {s s' : State} (a : Act) : Reachable fix s → stepWith fix s a = some s' → Reachable fix s'
+
+def run (fix : Bool) (s : State) : List Act → Option State
+  | [] => some s
+  | a :: as => (stepWith fix s a).bind (fun s' => run fix s' as)
+
+end Esc
 
 /-! ### environment assembly -/
 
